@@ -2,7 +2,7 @@
    Print Assumptions. *)
 From Coq Require Import ZArith NArith List Bool Sorted.
 From Centro Require Import Base.GraphC15 Model.LabelGraph Spec.LabelGraph
-  Proofs.ColorC15 Proofs.DfsC15 Proofs.AccC15 Proofs.EulerC15 Proofs.RelabelC15 Proofs.NeighborsC15 Proofs.EulerQuadC15.
+  Proofs.ColorC15 Proofs.DfsC15 Proofs.AccC15 Proofs.EulerC15 Proofs.RelabelC15 Proofs.NeighborsC15 Proofs.EulerQuadC15 Proofs.EulerStepC15.
 Import ListNotations.
 
 (* ---- all_connected_components / _all_connected_components (Full, including termination) ----
@@ -97,11 +97,46 @@ Proof. exact quad_counts_spec. Qed.
 Print Assumptions C15_quad_counts_spec.
 
 (* ---- euler_number = 8-components - holes: Finite (exhaustive, bound in the statement) ---- *)
-(* euler_is_components_minus_holes_partial — the general statement
-     forall img l, rect img -> l <> 0 -> euler4 img l = 4 * euler_spec img l
-   is NOT proved: missing is the lemma "deleting an (8,4)-simple pixel changes neither the quad
-   count n(Q1) - n(Q3) - 2 n(QD) nor components - holes" together with a reduction of every
-   finite pixel set to the empty set; only the two exhaustive sweeps below are proved. *)
+(* ---- euler_number under deletion of a pixel (Full): the change of 4 W is the local term qdelta of the
+   eight neighbours; Finite-256 lifted to every image: an (8,4)-simple pixel (simple8 on the 3x3
+   pattern) changes nothing ---- *)
+Theorem C15_euler_removal_step : forall (img : image) (l y x : Z), rect img -> l <> 0 -> get2 img y x = l ->
+  euler4 img l = euler4 (remove_px img y x) l +
+    qdelta (inS img l (y + -1) (x + -1)) (inS img l (y + -1) (x + 0)) (inS img l (y + -1) (x + 1))
+           (inS img l (y + 0) (x + -1)) (inS img l (y + 0) (x + 1))
+           (inS img l (y + 1) (x + -1)) (inS img l (y + 1) (x + 0)) (inS img l (y + 1) (x + 1)).
+Proof. exact euler_removal_step. Qed.
+Print Assumptions C15_euler_removal_step.
+
+Theorem C15_euler_simple_deletion : forall (img : image) (l y x : Z), rect img -> l <> 0 -> get2 img y x = l ->
+  simple_at img l y x = true -> euler4 (remove_px img y x) l = euler4 img l.
+Proof. exact euler_simple_deletion. Qed.
+Print Assumptions C15_euler_simple_deletion.
+
+(* euler_reducible (Full): 4 W = 4 k for every image whose label-l pixel set is emptied by deletions
+   of simple pixels and k deletions of isolated points (Reduces) - every size, every label image *)
+Theorem C15_euler_reducible : forall l : Z, l <> 0 -> forall img k, Reduces l img k -> rect img -> euler4 img l = 4 * k.
+Proof. exact euler_reducible. Qed.
+Print Assumptions C15_euler_reducible.
+
+(* euler_is_components_minus_holes_partial: the statement at full strength is
+     forall img l, rect img -> l <> 0 -> euler4 img l = 4 * euler_spec img l.
+   Proved: the equality for every reducible image GIVEN the three facts about components - holes
+   (Spec.LabelGraph.euler_spec) that are hypotheses below.  Missing: (1) components - holes is invariant
+   under deletion of an (8,4)-simple pixel - this is C05's simple_removal_topo (proved locally on the
+   3x3 pattern only: Proofs.EulerStepC15.simple_local_topology); (2) an isolated point is one component
+   and no hole; (3) the empty set has none; and images with holes are not reducible (a one-pixel-wide
+   ring has no simple pixel), for them only the exhaustive sweeps below apply. *)
+Theorem C15_euler_is_components_minus_holes_partial : forall l : Z, l <> 0 ->
+  (forall img y x, rect img -> get2 img y x = l -> simple_at img l y x = true ->
+     euler_spec (remove_px img y x) l = euler_spec img l) ->
+  (forall img y x, rect img -> get2 img y x = l -> isolated_at img l y x = true ->
+     euler_spec (remove_px img y x) l = euler_spec img l - 1) ->
+  (forall img, rect img -> (forall y x, get2 img y x <> l) -> euler_spec img l = 0) ->
+  forall img k, Reduces l img k -> rect img -> euler4 img l = 4 * euler_spec img l.
+Proof. exact euler_is_components_minus_holes_partial. Qed.
+Print Assumptions C15_euler_is_components_minus_holes_partial.
+
 Theorem C15_euler_is_components_minus_holes_3x3 : forall h w im l,
   (1 <= h <= 3)%nat -> (1 <= w <= 3)%nat -> length im = h ->
   Forall (fun r => length r = w /\ Forall (fun v => In v [0;1;2]) r) im -> In l [1;2] ->
